@@ -235,6 +235,9 @@ class Grid:
                 ("mean(a,b,c,w=2)", lambda: f.mean(r["a"], r["b"], r["n"]["x"], w=2), lambda: mirror.mean(a, b, c, w=2)),
                 ("pick(a,b,b=c)", lambda: f.pick(r["a"], r["b"], b=r["n"]["x"]), lambda: mirror.pick(a, b, b=c)),
                 ("sq(a+b)", lambda: f.sq(r["a"] + r["b"]), lambda: mirror.sq(a + b)),
+                ("kws(z=a,y=b,x=c)", lambda: f.kws(z=r["a"], y=r["b"], x=r["n"]["x"]), lambda: mirror.kws(z=a, y=b, x=c)),
+                ("kws(c,p=a,a=b)", lambda: f.kws(r["n"]["x"], p=r["a"], a=r["b"]), lambda: mirror.kws(c, p=a, a=b)),
+                ("kws(y=2,x=a)", lambda: f.kws(y=2, x=r["a"]), lambda: mirror.kws(y=2, x=a)),
             ]
             for name, mk, py in cases:
                 self.record(["call", name, canon(a), canon(b), canon(c)], outcome(lambda: mk()._get_value()), outcome(py), False)
